@@ -391,7 +391,7 @@ func bareStringDefaults(d any) {
 	switch m := d.(type) {
 	case map[string]any:
 		if ty, ok := m["type"].(map[string]any); ok {
-			if def, ok := m["default"].(string); ok && ty["type_id"] == "string" && len(def) > 2 && def[0] == '"' && def[len(def)-1] == '"' {
+			if def, ok := m["default"].(string); ok && ty["type_id"] == "string" && len(def) >= 2 && def[0] == '"' && def[len(def)-1] == '"' {
 				plain := true
 				for _, c := range def[1 : len(def)-1] {
 					if c < 'a' || c > 'z' {
